@@ -163,6 +163,33 @@ theorem C11_chunks_disjoint (h : ExactCover ps c p total) (hc : 0 < c) (i j : Na
     rw [Nat.le_div_iff_mul_le hc, Nat.mul_comm]; exact hr'
   omega
 
+/-- the load is balanced in chunks: every partition owns `k / s` or `k / s + 1` whole chunks
+    (`np.array_split`), so in particular none is empty and no two differ by more than one chunk -/
+theorem C11_balanced (k s i : Nat) :
+    splitStart k s (i+1) = splitStart k s i + k / s ∨
+    splitStart k s (i+1) = splitStart k s i + k / s + 1 := by
+  unfold splitStart
+  have e : (i+1) * (k / s) = i * (k / s) + k / s := by rw [Nat.add_mul, Nat.one_mul]
+  rw [e]
+  omega
+
+/-- the partitions that own the extra chunk come first: the chunk counts are non-increasing -/
+theorem C11_balanced_antitone (k s i : Nat) :
+    splitStart k s (i+2) - splitStart k s (i+1) ≤ splitStart k s (i+1) - splitStart k s i := by
+  unfold splitStart
+  have e1 : (i+1) * (k / s) = i * (k / s) + k / s := by rw [Nat.add_mul, Nat.one_mul]
+  have e2 : (i+2) * (k / s) = i * (k / s) + k / s + k / s := by
+    rw [Nat.add_mul]; omega
+  rw [e1, e2]
+  omega
+
+/-- exactly `min p k` partitions are produced: fewer than asked for only when there are not
+    enough chunks to give every task one -/
+theorem C11_count_exact (n c p : Nat) (m : Option Nat) :
+    (genPartitions n c p m).length = min p (numChunks n c m) ∧
+    (chunkAlignedSlices n c p m).length = min p (numChunks n c m) := by
+  rw [chunkAlignedSlices_eq]; exact ⟨genPartitions_length n c p m, genPartitions_length n c p m⟩
+
 /-- non-vacuity: 10 records, chunk size 3, 3 partitions asked → [(0,6),(6,9),(9,10)] -/
 example : genPartitions 10 3 3 none = [(0, 6), (6, 9), (9, 10)] := by decide
 example : genPartitionsE 0 3 3 none = none := by decide
